@@ -16,7 +16,7 @@ type c19 struct{ base }
 
 func init() {
 	runner.Register(&c19{base{id: "C19", level: "exploration",
-		rule: "per case: 1-3 tables (hash-only / hash+range / with 2 GSIs + 1 LSI) brought to a random state by the same seeded history on a client and its TWIN; then a BatchWriteItem of 1-25 requests (puts and deletes mixed, keys present and absent, tables repeated, distinct keys within a batch) on the client versus the same requests as single PutItem/DeleteItem calls on the twin: the complete observations of all tables (every key, base scan, every index scan, DescribeTable counts) must be identical, and both must agree with the model; BatchGetItem (SDK v2) of 1-25 keys, and in every fourth case of 26-100 keys over 30-80 stored bulk items, with 0-100 % absent keys versus individual GetItem: Responses per table = the multiset of non-empty individual results, UnprocessedKeys empty. non-trivial = batch has >=2 requests touching >=1 present and >=1 absent key; distinct by (adapter, tables, batch size, put/delete pattern, present/absent pattern). A quarter of the write batches follow, on the same client, a batch REFUSED for naming a missing table (sorting before, between, after the existing ones): it leaves no trace and the following batch still equals its singles.",
+		rule: "per case: 1-3 tables (hash-only / hash+range / with 2 GSIs + 1 LSI) brought to a random state by the same seeded history on a client and its TWIN; then a BatchWriteItem of 1-25 requests (puts and deletes mixed, keys present and absent, tables repeated, distinct keys within a batch) on the client versus the same requests as single PutItem/DeleteItem calls on the twin: the complete observations of all tables (every key, base scan, every index scan, DescribeTable counts) must be identical, and both must agree with the model; BatchGetItem (SDK v2) of 1-25 keys, and in every fourth case of 26-100 keys over 30-80 stored bulk items, with 0-100 % absent keys versus individual GetItem: Responses per table = the multiset of non-empty individual results, UnprocessedKeys empty. non-trivial = batch has >=2 requests touching >=1 present and >=1 absent key; distinct by (adapter, tables, batch size, put/delete pattern, present/absent pattern). A quarter of the write batches follow, on the same client, a batch REFUSED for naming a missing table (sorting before, between, after the existing ones): it leaves no trace and the following batch still equals its singles. The retry loop: a batch answered while a failure is emulated, its UnprocessedItems map (the response's own object) sent again once the failure is off - success with nothing unprocessed equals the singles.",
 		assumptions: []string{"oracle = the same adapter executing the decomposition (metamorphic), cross-checked with the model", commonAssumptions[1]}}})
 }
 
